@@ -1,6 +1,7 @@
 import PdshVerif.Pcp.Isolated
 import PdshVerif.Pcp.Commute
 import PdshVerif.Pcp.Spec
+import PdshVerif.Pcp.Multi
 
 /-! # C11  pdcp/rpdcp reproduce the source tree exactly on every target
 
@@ -505,5 +506,82 @@ example :
     have h3 : x ≠ [[119], [100]] := by intro e; subst e; simp at hl
     simp [h1, h2, h3]
   · exact List.Perm.swap _ _ _
+
+/-! ## Several receivers in one process (rpdcp serves its targets by threads of one process) -/
+
+/-- `receivers_independent` (routing).  In the product of receivers over one shared file system, events
+of other connections -- any number, in any interleaving, including their error replies -- leave
+connection `j`'s own state untouched: its reply stream, its stack of directory levels and its parser
+state change only by events of connection `j`.  (The seeded change C11-4, a reply `FILE*` cached across
+calls, breaks exactly this; the check runs the real receivers as threads of one process against it.) -/
+theorem receivers_independent (os : List Opts) (m : Multi) (sched : List Event) (j : Nat)
+    (h : ∀ e ∈ sched, e.1 ≠ j) : (m.run os sched).conns[j]? = m.conns[j]? :=
+  run_other os j sched h m
+
+/-- The product restricted to one connection IS the single receiver: with only connection `i` active,
+its replies and the shared file system are those of `run` on its stream, whatever the number and the
+options of the other (idle) receivers. -/
+theorem receiver_alone (os : List Opts) (i : Nat) (o : Opts) (ho : os[i]? = some o) (fs : FS) (stream : Str) :
+    ((Multi.init os fs).run os (soloSched i stream)).fs = (run o fs stream).fs ∧
+    ((Multi.init os fs).run os (soloSched i stream)).conns[i]? = some (run o fs stream).loc := by
+  have hfs : (enter o (St.init fs) o.dest).fs = fs := by
+    unfold enter
+    split
+    · simp [leave, St.reply, St.init]
+    · rfl
+  have hl : (Multi.init os fs).conns[i]? = some (enter o (St.init fs) o.dest).loc := by
+    simp [Multi.init, ho]
+  have hb := run_bytes os i o ho stream (Multi.init os fs) _ hl
+  have he : St.ofLoc (Multi.init os fs).fs (enter o (St.init fs) o.dest).loc = enter o (St.init fs) o.dest := by
+    have := St.ofLoc_loc (enter o (St.init fs) o.dest)
+    rw [hfs] at this
+    exact this
+  rw [he] at hb
+  obtain ⟨h1, h2⟩ := hb
+  have hi : i < ((Multi.init os fs).run os (stream.map fun b => (i, some b))).conns.length := by
+    rcases Nat.lt_or_ge i ((Multi.init os fs).run os (stream.map fun b => (i, some b))).conns.length with h | h
+    · exact h
+    · rw [List.getElem?_eq_none h] at h2; cases h2
+  have hrun : (Multi.init os fs).run os (soloSched i stream) =
+      (((Multi.init os fs).run os (stream.map fun b => (i, some b))).stepAt os (i, none)) := by
+    simp [Multi.run, soloSched, List.foldl_append]
+  rw [hrun]
+  have hst := St.ofLoc_loc (stream.foldl (step o) (enter o (St.init fs) o.dest))
+  rw [← h1] at hst
+  simp only [Multi.stepAt, ho, h2, hst]
+  exact ⟨rfl, by simp only [List.getElem?_set, hi, if_true]; rfl⟩
+
+/-- `receivers_independent` holds as stated above for the schedules in which no two `_error()` calls
+overlap (events are atomic).  With the REPAIRED `_error()` (reply stream in an automatic variable) it also
+holds when a receiver is overtaken inside `_error()`: the overlapped step of `a` together with the events
+of the receivers overtaking it leaves every other connection untouched. -/
+theorem receivers_independent_repaired (os : List Opts) (m : Multi) (ea : Event) (inner : List Event) (j : Nat)
+    (ha : j ≠ ea.1) (hin : ∀ e ∈ inner, e.1 ≠ j) :
+    (m.overlapAt false os ea inner).conns[j]? = m.conns[j]? :=
+  overlapAt_other os m ea inner j ha hin
+
+/-- `/w/d` holds the directories `f` and `g`: a regular file of either name cannot be written -/
+def rfs : FS := fun p =>
+  if p = [] then some (.dir 0o755 none)
+  else if p = [[119]] then some (.dir 0o755 none)
+  else if p = [[119], [100]] then some (.dir 0o755 none)
+  else if p = [[119], [100], [102]] then some (.dir 0o755 none)
+  else if p = [[119], [100], [103]] then some (.dir 0o755 none)
+  else none
+
+/-- `C0644 1 f\n` without its newline, and `C0644 1 g\n` -/
+def recF : Str := [67, 48, 54, 52, 52, 32, 49, 32, 102]
+def recG : Str := [67, 48, 54, 52, 52, 32, 49, 32, 103, 10]
+
+/-- Finding F11-ERRFP-RACE mirrored: with the shared `static FILE *fp` of the unchanged `_error()`, when
+receiver 0 is overtaken inside `_error()` by receiver 1 reporting an error of its own, BOTH records end up
+on connection 1 and connection 0 gets nothing beyond the greeting; with the repaired `_error()` each
+connection gets its own record. -/
+theorem errfp_race_witness :
+    ((((Multi.init [ro, ro] rfs).run [ro, ro] (recF.map fun b => (0, some b))).overlapAt true [ro, ro] (0, some 10)
+        (recG.map fun b => (1, some b))).conns.map (·.out) = [[.ack], [.err .path, .err .path, .ack]]) ∧
+    ((((Multi.init [ro, ro] rfs).run [ro, ro] (recF.map fun b => (0, some b))).overlapAt false [ro, ro] (0, some 10)
+        (recG.map fun b => (1, some b))).conns.map (·.out) = [[.err .path, .ack], [.err .path, .ack]]) := by
+  decide +kernel
 
 end PdshVerif.Props.C11
